@@ -87,7 +87,7 @@ pub fn c09(g: &mut G) {
         let (fe, calls): (&str, Vec<Call>) = match i % 4 {
             0 => ("raw", ins_calls(&values(keys, i % VALUE_PATTERNS, &mut g.rng))),
             1 => ("map", ins_calls(&values(keys, (i + 2) % VALUE_PATTERNS, &mut g.rng))),
-            2 => ("set", add_calls(keys)),
+            2 => ("set", if i % 8 == 2 { add_calls_rep(keys) } else { add_calls(keys) }),
             _ => ("map_iter", ins_calls(&values(keys, (i + 5) % VALUE_PATTERNS, &mut g.rng))),
         };
         let ty = if fe == "raw" { (i % 5) as u64 } else { 0 };
@@ -147,6 +147,9 @@ pub fn c10(g: &mut G) {
             let share = (i / 2) % 2 == 0;
             let bytes = refenc::encode(v, (i % 3) as u64, &kv, style, share);
             g.emit(format!("# {} v{} style{} share{}", label, v, style, share));
+            if kv.len() <= 600 {
+                g.emit(format!("enc {} {} {} {} {}", v, (i % 3) as u64, style, share as u8, if kv.is_empty() { ".".to_string() } else { kvs_str(&kv) }));
+            }
             g.emit(format!("load {}", hex(&bytes)));
             g.emit(format!("expect {}", kvs_str(&kv)));
             queries(g, &kv);
@@ -242,6 +245,11 @@ pub fn c13(g: &mut G) {
     let (n1, n2) = if g.thorough { (3_000_000, 30_000_000) } else { (1_000_000, 3_000_000) };
     g.emit(format!("!membuild set {} {}", n1, n2));
     g.emit(format!("!membuild map {} {}", n1, n2));
+    // keys that are proper prefixes of their successors; sinks that accept writes piecewise
+    // (n1 must be past the point where the cache is saturated, measured ≈ 1M keys)
+    g.emit(format!("!membuild set {} {} prefix 0", n1, 2 * n1));
+    g.emit(format!("!membuild map {} {} prefix 4096", n1, 2 * n1));
+    g.emit(format!("!membuild set {} {} fixed 1", n1, 2 * n1));
     // model footprint vs hook footprint on small inputs
     let sets = key_sets(g);
     for (i, (_, keys)) in sets.iter().enumerate() {
@@ -294,6 +302,11 @@ pub fn c15(g: &mut G) {
             g.emit(format!("!par 0 {}", show_calls(&ins)));
         }
     }
+    // enough distinct nodes to overflow cache buckets (evictions): threads / processes must still agree
+    let mut rng = Rng::new(g.rng.next());
+    let big = random_words(&mut rng, if g.thorough { 120_000 } else { 40_000 }, b"abcdefghijklmnopqrstuvwxyz", 12);
+    let kv = values(&big, 7, &mut g.rng);
+    g.emit(format!("!par 0 {}", show_calls(&ins_calls(&kv))));
 }
 
 pub fn c16(g: &mut G) {
